@@ -37,6 +37,7 @@ class Rec(WM.WcMatch):
         self.skip_none = kw.get('skip_none', False)
         self.falsy = kw.get('falsy', False)      # hooks return falsy values that are not None: they must pass through
         self.match_none = kw.get('match_none', False)   # on_match returns None: whatever on_match returns is a result
+        self.veto = kw.get('veto', False)        # the validation hooks turn down some files and directories
         if kw.get('kill_in_init'):
             self.kill()                          # on_init is a hook like any other: a kill() issued here holds until reset()
 
@@ -57,11 +58,11 @@ class Rec(WM.WcMatch):
 
     def on_validate_directory(self, base, name):
         self.tick('vd', name, can_raise=True)
-        return True
+        return not (self.veto and sum(map(ord, os.fsdecode(name))) % 5 == 0)
 
     def on_validate_file(self, base, name):
         self.tick('vf', name, can_raise=True)
-        return True
+        return not (self.veto and sum(map(ord, os.fsdecode(name))) % 2 == 0)
 
     def compare_file(self, filename):
         self.tick('cf', filename, can_raise=True)
@@ -197,11 +198,16 @@ def run_abort(desc):
                 break
         nontrivial = len(U) >= 3 and len(skips) >= 1
         # ---- every abort point (with on_skip returning a value, and returning None) ---------------------
-        U_all, n_all, log_all = U, n, log_full
-        for skip_none in (False, True):
-            if skip_none:
-                U, n, log_full = Un, wn.count, list(wn.log)
-            new_k = (lambda sn=skip_none: new(skip_none=sn))
+        U_all, n_all, log_all, sk_all = U, n, log_full, sk
+        for variant in ({}, {'skip_none': True}, {'veto': True}):
+            skip_none = tuple(sorted(variant))
+            if variant:
+                wv = new(**variant)
+                U = wv.match()
+                n, log_full, sk = wv.count, list(wv.log), wv.get_skipped()
+                if variant.get('veto'):
+                    out.stats['files_turned_down_by_on_validate_file'] += sk - sk_all
+            new_k = (lambda v=variant: new(**v))
             for k in range(0, n + 2):
                 w = new_k()
                 if k == 0:
@@ -253,7 +259,7 @@ def run_abort(desc):
                 if nontrivial and 1 <= k <= n:
                     out.nontrivial(('kill', desc['tree'], desc['cfg'], k, skip_none))
 
-        U, n, log_full = U_all, n_all, log_all
+        U, n, log_full, sk = U_all, n_all, log_all, sk_all
         # ---- kill between two yielded results (driving imatch by hand) -----------------------------
         for j in range(0, len(U) + 1):
             w = new()
